@@ -7,6 +7,10 @@ CLAIMS = {
   text="Coq theorems over the Gallina model of hash_string / crypt table / block cipher / byte wrappers: cipher inverse for every key and every byte length, spelling invariance, table and hash equal to the independently written reference algorithm, cipher equals the reference for every non-zero key. Model tied to the code by constants regenerated from the Rust sources on every run and by exhaustive differential execution (all names of length <=2 x 5 hash types, all 1280 table entries, all lengths 0..17) of the extracted model against the crate built from the working tree; Jenkins hashes compared with a reference lookup3 written from its description.",
   note="Trusted: Coq kernel + vm_compute, extraction (ExtrOcamlBasic), OCaml driver, gen_consts.py regexes, Rust harness. Reference algorithm = my transcription of the published MPQ hash/cipher and lookup3. Jenkins: model = code and code = reference are validated differentially (theorem impl-shape = lookup3 not yet proved). Key 0 (cipher is the identity here, not in StormLib) is excluded from the reference comparison and belongs to C02. No axioms.",
   tech="Coq proof (induction over word/byte lists, vm_compute over finite tables) + exhaustive differential correspondence"),
+ "C03": dict(
+  text="Theorems over the wrapper model for an arbitrary inner codec: stored form never longer than the input, tagged output is strictly shorter (so the reader's 'same length means raw' rule is sound), wrapper round trip relative to the codec contract, acceptance region of the default limit logic for all sizes up to 2^21, and the sparse decoder inverts every well-formed token stream (unbounded). Tied to the code by regenerated limit constants, byte-exact correspondence of the sparse codec, the wrapper and the limit decisions (boundary triples), and the compress->decompress oracle on the real codecs over nine compressibility classes.",
+  note="partial: the half 'sparse_compress emits a well-formed token stream of its input' is validated (exhaustive zero-run sweep 0..800, boundary run lengths, random) but not proved; zlib/bzip2/LZMA/PKWare/Huffman/ADPCM internals are external crates (codec contract is a Section hypothesis, exercised by the oracle); wall-clock limits not modelled. Known finding: bzip2 of 2 MiB constant data exceeds the adaptive limit.",
+  tech="Coq proof (wrapper/limit algebra by lia, sparse decoder by induction over tokens) + differential correspondence + implementation oracle"),
  "C18": dict(
   text="tile<->world: Flocq binary32 model of both functions, theorem for all 64x64 tiles by a kernel-evaluated finite sweep, tied to the code by regenerated float constants and bit-exact exhaustive comparison on all 4096 tiles plus seeded float patterns. WDT: complete byte-level Coq model of writer and reader with the theorem read(write w) = Ok w for every well-formed map definition and byte-identical second write (generic theorems: chunk framing tiles the file, record codec and name-table round trips), tied by byte-exact writer and reader correspondence incl. mutated files. WDL: offset-table discipline checked on the real bytes with the extracted, proven chunk walk; content round trip and version conversion checked on the implementation.",
   note="Flocq brings the four classical real-number axioms (listed in the evidence) for the coordinate theorem only. WDL content codec and the version-conversion functions are validated on the implementation, not modelled. UTF-8 validity of names is outside the model. Objects the writer silently trims (MWMO on Cataclysm+ terrain maps, MVER != 18) are outside the well-formedness predicate.",
